@@ -57,6 +57,7 @@ def handle : Handler
     let (bf, rest) ← takeList rest
     if !rest.isEmpty then none
     pure (encStr (cacheDecoratorExpr bf b s cfg))
+  | ["blocksite", c] => do let c ← decStr c; pure (encStr (blockCallSiteExpr c))
   | "calltag" :: e :: rest => do
     let e ← decStr e
     let (cfg, rest) ← takeCfg rest
